@@ -372,7 +372,16 @@ impl<R: Clone + 'static> GlobalCache<R> {
             let mut o = self.order.lock();
             // Acquire write lock to modify the map
             let mut map_write = self.map.write();
-            remove_key_from_global_cache(&mut map_write, &mut o, key);
+            // The entry was seen expired under the read lock, which has been released since:
+            // another thread may have purged it and stored a fresh value meanwhile. Only an
+            // entry that is still expired (or a key that is gone) is purged; a fresh value
+            // stays cached, as in the async cache.
+            if map_write
+                .get(key)
+                .map_or(true, |entry| entry.is_expired(self.ttl))
+            {
+                remove_key_from_global_cache(&mut map_write, &mut o, key);
+            }
             #[cfg(feature = "stats")]
             self.stats.record_miss();
             return None;
